@@ -37,7 +37,7 @@ OPKINDS = ['append', 'extend', 'iadd', 'insert', 'setitem', 'delitem', 'pop', 'r
            'reassign', 'reverse', 'bulk_fail', 'extend_self', 'reassign_rev']
 WEIGHTS = [4, 3, 3, 4, 4, 4, 4, 4, 1, 2, 1, 2, 1, 1]
 # Python argument forms of the bulk operations (the model is the same for all of them)
-FORMS = ['list', 'tuple', 'gen', 'iter', 'indexedlist']
+FORMS = ['list', 'tuple', 'gen', 'iter', 'indexedlist', 'adopt']
 
 
 def gen_op(rng, n):
